@@ -1,6 +1,7 @@
 package dkgnet
 
 import (
+	"sync"
 	"context"
 	"fmt"
 	"os"
@@ -41,6 +42,32 @@ func TestC15DKGTraffic(t *testing.T) {
 				rt.Fatalf("node: %v", err)
 			}
 			nodes = append(nodes, nd)
+		}
+		// hostile twins: before every gossip packet reaches its receiver, the harness (as a remote party) sends the same receiver
+		// copies that must be refused -- signature bit-flipped, claimed sender swapped -- and keeps the error text the receiver
+		// returns: an answer to a remote caller like any other
+		type refusal struct{ kind, to, text string }
+		var refMu sync.Mutex
+		var refusals []refusal
+		bus.Intercept = func(m *Msg, p *pdkg.GossipPacket) *pdkg.GossipPacket {
+			target := bus.Node(m.To)
+			if target == nil || target.Proc == nil || p.GetMetadata() == nil {
+				return p
+			}
+			for _, variant := range []string{"signature-flipped", "sender-swapped"} {
+				twin := proto.Clone(p).(*pdkg.GossipPacket)
+				if variant == "signature-flipped" {
+					twin.Metadata.Signature = flip(twin.Metadata.Signature)
+				} else {
+					twin.Metadata.Address = m.To
+				}
+				if _, err := bus.safePacket(target.Proc, twin); err != nil {
+					refMu.Lock()
+					refusals = append(refusals, refusal{m.Kind + "/" + variant, m.To, err.Error()})
+					refMu.Unlock()
+				}
+			}
+			return p
 		}
 		desc := fmt.Sprintf("%s n=%d t=%d reshare=%v seed=%d", scheme, n, thr, doReshare, seed)
 		fail := func(key, detail string) {
@@ -103,6 +130,37 @@ func TestC15DKGTraffic(t *testing.T) {
 			kinds[m.Kind]++
 			if who := secretscan.Find(m.Raw, all); who != "" {
 				fail("C15/secret-on-the-wire", fmt.Sprintf("a %s message from %s to %s contains the %s", m.Kind, m.From, m.To, who))
+			}
+		}
+		// error texts returned to remote callers: for the protocol's own messages (as recorded on the bus) and for the hostile twins
+		for _, m := range tap {
+			if m.Err != "" {
+				scanned++
+				kinds["error-answer"]++
+				if who := secretscan.Find([]byte(m.Err), all); who != "" {
+					fail("C15/secret-in-response", fmt.Sprintf("the error answer of %s to a %s message contains the %s: %s", m.To, m.Kind, who, trunc300(m.Err)))
+				}
+			}
+		}
+		refMu.Lock()
+		for _, r := range refusals {
+			scanned++
+			kinds["refusal-of-forged-packet"]++
+			if who := secretscan.Find([]byte(r.text), all); who != "" {
+				fail("C15/secret-in-response", fmt.Sprintf("the answer of %s refusing a forged packet (%s) contains the %s: %s", r.to, r.kind, who, trunc300(r.text)))
+			}
+		}
+		refMu.Unlock()
+		// operator commands that are refused: their error text goes to the control client and the log
+		for i, nd := range nodes {
+			for name, f := range map[string]func() error{"accept": nd.Accept, "execute": nd.Execute, "abort": nd.Abort, "join": func() error { return nd.Join(nil) }} {
+				if err := f(); err != nil {
+					scanned++
+					kinds["refused-command"]++
+					if who := secretscan.Find([]byte(err.Error()), all); who != "" {
+						fail("C15/secret-in-response", fmt.Sprintf("the error of command %s on node %d contains the %s", name, i, who))
+					}
+				}
 			}
 		}
 		for i, nd := range nodes {
